@@ -526,6 +526,7 @@ def run(ctx):
     ctx.corr("directory R~M~S", **stats)
     run_full_tag(ctx, exe)
     run_bv(ctx, mod)
+    run_dyn(ctx, mod)
 
 
 def run_full_tag(ctx, exe):
@@ -665,6 +666,16 @@ def run_bv(ctx, mod):
 def replay(ctx, path):
     lines = [l.strip() for l in open(path).read().splitlines() if l.strip() and not l.startswith("#")]
     mod = ctx.model("dd_model", ["dd_main.ml"], ["dd_model"])
+    if path.endswith(".dyn"):
+        exe = ctx.harness("drive_dyn", ["drive_dyn.c"])
+        tmp = path + ".in"
+        open(tmp, "w").write("\n".join(lines) + "\n")
+        rc, R = vc.run_lines(exe, tmp)
+        _, M = vc.sh([mod, "dyn", tmp])
+        os.unlink(tmp)
+        for op, a, b in zip(lines, R, M.splitlines()):
+            print("%-14s R %-20s M %s%s" % (op, a, b, "" if a == b else "   <-- differs"))
+        return 0
     if path.endswith(".bv") or (lines and lines[0].startswith("new")):
         exe = ctx.harness("drive_bv", ["drive_bv.c"])
         tmp = path + ".in"
@@ -688,3 +699,77 @@ def replay(ctx, path):
         print("R stopped after %d of %d operations" % (len(rl), len(lines)))
     print("verdict:", "agree" if v is None else "%s at operation %d: %s" % (v[0], v[1], v[2]))
     return 0
+
+
+# ------------------------------- dynarray.c, driven directly ----------------------------------------
+
+def run_dyn(ctx, mod):
+    """dynarray.c against coq/DDDynModel.v (results and num_elems after every call) and against a dict (the finite map)"""
+    r = ctx.rng
+    exe = ctx.harness("drive_dyn", ["drive_dyn.c"])
+    seqs = []
+    for _ in range(40 if ctx.tier == "quick" else 400):
+        start, incr = r.choice([(64, 256), (64, 256), (0, 1), (0, 4), (1, 1), (5, 3), (8, 8), (0, 256)])
+        ops = ["new %d %d" % (start, incr)]
+        hot = [0, 1, start - 1, start, start + 1, incr - 1, incr, incr + 1, 2 * incr - 1, 2 * incr, 63, 64, 65, 255, 256, 257,
+               319, 320, 321, 511, 512, 65535]
+        hot = [x for x in hot if x >= 0]
+        for _ in range(r.choice([4, 15, 40])):
+            x = r.random()
+            e = r.choice(hot + [r.randrange(0, 600)] * 4)
+            if x < 0.45:
+                ops.append("s %d %d" % (e, r.randrange(0, 1000)))
+            elif x < 0.75:
+                ops.append("g %d" % e)
+            else:
+                ops.append("d %d" % e)
+        seqs.append(ops)
+    seqs.append(["new -1 4", "new 4 0", "new 0 -3", "new 0 1", "g 0", "d 0", "s 0 7", "g 0", "d 0", "d 0", "s -1 3", "g -1", "d -1"])
+    tmp = os.path.join(ctx.bdir, "harness", "c12-dyn-%d.in" % os.getpid())
+    flat = [l for s_ in seqs for l in s_]
+    with open(tmp, "w") as fh:
+        fh.write("\n".join(flat) + "\n")
+    rc, R = vc.run_lines(exe, tmp, timeout=600)
+    rcm, M = vc.sh([mod, "dyn", tmp], timeout=600)
+    os.unlink(tmp)
+    M = M.splitlines()
+    stats = {"sequences": len(seqs), "calls": len(flat), "agree": 0, "growths": 0}
+    bad = None
+    if rc != 0 or rcm != 0 or len(R) != len(M) or len(R) != len(flat):
+        bad = (min(len(R), len(M)), "crash or length mismatch (harness rc=%d, %d lines; model rc=%d, %d lines; %d calls)" % (
+            rc, len(R), rcm, len(M), len(flat)))
+    shadow, live, prev = {}, False, None
+    for i, (op, rl) in enumerate(zip(flat, R)):
+        w = op.split()
+        if w[0] == "new":
+            shadow, live, prev = {}, rl == "new ok", None
+        elif live:
+            res, num = rl.split()
+            e = int(w[1])
+            want = None
+            if w[0] == "s" and e >= 0:
+                shadow[e] = int(w[2]) + 1
+            elif w[0] == "g":
+                want = shadow.get(e, 0) if e >= 0 else 0
+            elif w[0] == "d":
+                want = shadow.pop(e, 0) if e >= 0 else 0
+            if want is not None and int(res) != want:
+                j = max(k for k in range(i + 1) if flat[k].startswith("new"))
+                ctx.violation("dynarray.c returned %s for '%s', the finite map has %d" % (res, op, want),
+                              "# C12 dynarray replay (harness drive_dyn)\n" + "\n".join(flat[j:i + 1]) + "\n# library: " + rl,
+                              found=True, suffix="dyn")
+                return
+            if prev is not None and num != prev:
+                stats["growths"] += 1
+            prev = num
+        if i < len(M) and rl == M[i]:
+            stats["agree"] += 1
+        elif bad is None:
+            bad = (i, "%s: library '%s' model '%s'" % (op, rl, M[i] if i < len(M) else "?"))
+    ctx.corr("dynarray.c R~M (result, num_elems) and R~finite map", **stats)
+    if bad is not None:
+        i = bad[0]
+        j = max([k for k in range(min(i, len(flat) - 1) + 1) if flat[k].startswith("new")] or [0])
+        ctx.violation("dynarray model and library differ (correspondence of dyn_refines_map broken): " + bad[1],
+                      "# C12 dynarray replay (harness drive_dyn)\n" + "\n".join(flat[j:i + 1]) + "\n# " + bad[1],
+                      found=False, suffix="dyn")
